@@ -41,31 +41,37 @@ class PointwiseAffineTransform(Transform):
         return torch.log(torch.abs(self._scale))
 
     # XXX Memoize result on first run?
-    def _batch_logabsdet(self, batch_shape: Iterable[int]) -> Tensor:
+    def _batch_logabsdet(self, batch_shape: Iterable[int], dtype=None) -> Tensor:
         """Return log abs det with input batch shape."""
 
-        if self._log_abs_scale.numel() > 1:
+        log_abs_scale = self._log_abs_scale
+        if dtype is not None and log_abs_scale.dtype != dtype:
+            # An integer scale (e.g. scale=2) is kept as an integer buffer, which .double() does
+            # not convert: take the logarithm in the dtype of the outputs.
+            log_abs_scale = torch.log(torch.abs(self._scale).to(dtype))
+
+        if log_abs_scale.numel() > 1:
             # (the leading 1 admits a scale written with a singleton batch dimension, e.g. (1, C, 1, 1))
-            return self._log_abs_scale.expand(1, *batch_shape).sum()
+            return log_abs_scale.expand(1, *batch_shape).sum()
         else:
             # When log_abs_scale is a scalar, we use n*log_abs_scale, which is more
             # numerically accurate than \sum_1^n log_abs_scale.
             # (sum() drops singleton dimensions of a one-element scale such as shape (1, 1, 1))
-            return self._log_abs_scale.sum() * torch.Size(batch_shape).numel()
+            return log_abs_scale.sum() * torch.Size(batch_shape).numel()
 
     def forward(self, inputs: Tensor, context=Optional[Tensor]) -> Tuple[Tensor]:
         batch_size, *batch_shape = inputs.size()
 
         # RuntimeError here means shift/scale not broadcastable to input.
         outputs = inputs * self._scale + self._shift
-        logabsdet = self._batch_logabsdet(batch_shape).expand(batch_size)
+        logabsdet = self._batch_logabsdet(batch_shape, outputs.dtype).expand(batch_size)
 
         return outputs, logabsdet
 
     def inverse(self, inputs: Tensor, context=Optional[Tensor]) -> Tuple[Tensor]:
         batch_size, *batch_shape = inputs.size()
         outputs = (inputs - self._shift) / self._scale
-        logabsdet = -self._batch_logabsdet(batch_shape).expand(batch_size)
+        logabsdet = -self._batch_logabsdet(batch_shape, outputs.dtype).expand(batch_size)
 
         return outputs, logabsdet
 
